@@ -457,6 +457,33 @@ def _o_statistics(spec, n, seed, stats):
     return None
 
 
+PIT_KIND = {"W": "u", "EW": "u", "SW": "u", "LN": "n", "NF": "n", "N": "n"}
+
+
+def pit_stream_gap(spec, n, seed):
+    """Contract pit_engine of C07_rosenblatt_image_is_generator_stream_partial, on the real code: for families that
+    scipy samples by inverse transform of uniforms (W, EW, SW) or as a function of standard normals (LN, NF, N) the
+    Rosenblatt image of draw_sample(n, seed) -- column i through the cdf with the parameters at THE SAME ROW's value of
+    the conditioning column -- is the stream the generator default_rng(seed) hands out, column after column, whatever
+    the parameters and dependence functions are.  Returns (gap, column) or None when the case is not judgeable."""
+    from scipy.special import ndtr
+    model = make_model(spec)
+    a = np.asarray(model.draw_sample(n, random_state=seed), dtype=float)
+    if a.shape != (n, len(spec["dims"])) or not np.all(np.isfinite(a)):
+        return None
+    u = M.spec_rosenblatt(spec, a)
+    if not np.all(np.isfinite(u)):
+        return None
+    g = np.random.default_rng(seed)
+    worst = (0.0, None)
+    for i, d in enumerate(spec["dims"]):
+        s = g.uniform(size=n) if PIT_KIND[d["fam"]] == "u" else ndtr(g.standard_normal(n))
+        e = float(np.max(np.abs(u[:, i] - s)))
+        if e > worst[0]:
+            worst = (e, i)
+    return worst
+
+
 def _o_univariate(dimspec, n, seed, stats, given=None):
     """dist.draw_sample(n): size, seeding, cdf (DKW).  von Mises compared modulo 2 pi."""
     import virocon.distributions as vd
@@ -963,6 +990,38 @@ def run(ctx):
         if idx % ctx.n(2, 1) == 0:
             neval += 1
             report(o_statistics(sp, nbig, seed, stats), {"oracle": "statistics", "spec": sp, "n": nbig, "seed": seed})
+    # contract of the Rosenblatt theorem on the real code (deterministic, any n): image of the sample = generator stream
+    pit_specs = [sp for sp in specs if all(d["fam"] in PIT_KIND for d in sp["dims"])]
+    for t in range(ctx.n(60, 600)):
+        sp = fix_spec(rng, M.rand_spec(rng, n_dim=rng.choice([2, 3, 4]), fams=sorted(PIT_KIND), first=rng.choice(M.NONNEG), allow_const=(t % 9 == 4)))
+        if all(d["fam"] in PIT_KIND for d in sp["dims"]):
+            pit_specs.append(sp)
+    pit = {"cases": 0, "unjudged": 0, "max_gap": 0.0, "tolerance": 1e-9, "families": sorted(PIT_KIND),
+           "not_covered": "GG, VM (rejection samplers: the stream consumed depends on the parameters)"}
+    pit_bad = 0
+    for sp in pit_specs:
+        n, seed = rng.choice([1, 2, 3, 5, 50, 1000]), rng.randrange(2 ** 31)
+        try:
+            gap = pit_stream_gap(sp, n, seed)
+        except Exception as e:   # a failing draw is judged by the oracles above
+            gap = None
+        if gap is None:
+            pit["unjudged"] += 1
+            continue
+        pit["cases"] += 1
+        pit["max_gap"] = max(pit["max_gap"], gap[0])
+        ctx.count(("pit", str(M.structure(sp)), n, seed), True)
+        if gap[0] > 1e-9 and pit_bad < 6:
+            pit_bad += 1
+            neval += 2
+            hit = False
+            for nb in (nbig, 10 * nbig):
+                hit = hit or report(o_statistics(sp, nb, seed, stats), {"oracle": "statistics", "spec": sp, "n": nb, "seed": seed})
+            if not hit:
+                ctx.mismatch("pit_engine contract (theorem C07_rosenblatt_image_is_generator_stream_partial): draw_sample(n=%d, random_state=%d) "
+                             "conditional_on=%r" % (n, seed, list(M.structure(sp))),
+                             "column %r of the Rosenblatt image of the sample differs from the generator stream by %.3g" % (gap[1], gap[0]))
+    ctx.notes["rosenblatt_stream_contract"] = pit
     # EVERY run: chains with a power-law dependence on a late dimension, at sample sizes over the small-block range of the allocator
     for csp in chain_specs():
         seed = rng.randrange(2 ** 31)
